@@ -4,6 +4,8 @@ import json
 from harness.core import pipeline, gallina as G, values as V
 from harness.jsonclass_support import world as W, worldgen as WG
 
+from harness.jsonclass_support import anchors
+
 PROP_ID = "C07"
 MANIFEST_ENTRY = {
     "text": ("Theorem by nested induction over all object graphs (Coq, closed under the global context): for every class table and "
@@ -20,8 +22,7 @@ MANIFEST_ENTRY = {
     "technique": "Coq proof over a hand-written executable model + differential correspondence check (vm_compute) + property oracle",
     "design_ref": "DESIGN.md 4/C07",
 }
-ANCHOR_RANGES = [("jsonrpclib/jsonclass.py", 64, 100), ("jsonrpclib/jsonclass.py", 161, 216), ("jsonrpclib/jsonclass.py", 231, 330),
-                 ("jsonrpclib/jsonrpc.py", 1257, 1259), ("jsonrpclib/jsonrpc.py", 1323, 1325)]
+ANCHOR_RANGES = anchors.func_ranges([("jsonrpclib/jsonclass.py", "_slots_finder"), ("jsonrpclib/jsonclass.py", "_find_fields"), ("jsonrpclib/jsonclass.py", "dump"), ("jsonrpclib/jsonclass.py", "load"), ("jsonrpclib/jsonrpc.py", "load")])
 RULE = ("generated class worlds (8 classes each over 3 synthetic modules and __main__: __dict__ / tuple __slots__ / serialize-method "
         "classes with list or dict constructor arguments, 0-5 fields with public, protected and name-mangled names, inheritance depth "
         "0-3, constructor defaults, two enums, Decimal) x supported object graphs of depth <= 4 (beans in lists, tuples, dict values, "
@@ -55,8 +56,8 @@ def d_outcome(o):
 class WorldStream(pipeline.Stream):
     model_imports = "JsonClassObs"
     shard = 150
-    n_worlds = {"quick": 4, "thorough": 14}
-    per_world = {"quick": 70, "thorough": 350}
+    n_worlds = {"quick": 6, "thorough": 14}
+    per_world = {"quick": 110, "thorough": 350}
     _up = False
 
     def setup(self):
@@ -276,7 +277,7 @@ class Rpc(WorldStream):
     name = "rpc"
     case_type = "nat * list (str * str) * val * res val"
     check_fn = "(c07_rpc_check WS)"
-    per_world = {"quick": 40, "thorough": 200}
+    per_world = {"quick": 60, "thorough": 200}
 
     def setup(self):
         WorldStream.setup(self)
